@@ -522,4 +522,6 @@ Definition run_view (H : net) (v : view) : tok :=
   | VParse lines dr ps pf => tres tnet_plain (rxns_to_hypergraph lines dr ps pf)
   end.
 
-Definition run_case (H : net) (vs : list view) : tok := L (tnet_plain H :: (run_view H <$> vs)).
+(** the network is observed before and after the views (the implementation runs them all on ONE object: an export that
+    mutated it would show here) *)
+Definition run_case (H : net) (vs : list view) : tok := L (tnet_plain H :: (run_view H <$> vs) ++ [tnet_plain H]).
